@@ -29,6 +29,11 @@ check('C04', 'property-based testing against schema tables: exhaustive targets.j
       'Mixed-side three-part feature variables and unary shapes the statement does not name are counted as unspecified, not judged.',
       'DESIGN.md section 7 C04')
 
+check('C14', 'property-based testing: differential execution across child interpreters with different PYTHONHASHSEED, repeat-call and metamorphic relations (seen-rule filter, nb erasure), Hypothesis-generated variable-conflict instantiations',
+      'Exploration: each generated case (inventory pairs, schema instantiations where one feature variable meets several concrete values, random categories, random/shipped seen-rule sets, random unary tables) is applied twice in-process and once in each of 4 child interpreters per shard started under distinct PYTHONHASHSEED values (32-64 seeds overall); serialised results must be identical, arguments unchanged, no exception; the seen-rule result must be exactly the unrestricted result or empty according to membership of the erased key; unary results must be the configured targets in order.',
+      'Only PYTHONHASHSEED is varied between processes. Japanese rule functions are fed only three-part-feature categories (plus *START*/*END*).',
+      'DESIGN.md section 7 C14')
+
 ALL = ['C%02d' % i for i in range(1, 21)]
 PENDING_REASON = 'check not built yet in this round (planned, see DESIGN.md section 7); not claimed until its command exists and is quiet on the unchanged tree'
 
